@@ -6,6 +6,9 @@ mod strings;
 mod suite_entity;
 mod suite_forest;
 mod suite_rt;
+mod idmap_hist;
+mod idmap_oracle;
+mod suite_idmap;
 mod suite_tree;
 mod tree;
 
@@ -28,6 +31,7 @@ fn main() {
         "tree" => suite_tree::run(seed, count, tier, &mut sink),
         "forest" => suite_forest::run(seed, count, tier, &mut sink),
         "rt" => suite_rt::run(seed, count, tier, &mut sink),
+        "idmap" => suite_idmap::run(seed, count, tier, &mut sink),
         _ => {
             eprintln!("unknown suite {}", suite);
             std::process::exit(2);
